@@ -1028,6 +1028,7 @@ pub fn run(opts: &Opts) -> i32 {
         |w| Sandbox::new(&format!("c15w{w}")).expect("sandbox"),
         |sb, i| check_history(sb, opts, i),
     );
+    harness::print_run_digest(&results.iter().map(|r| sha(format!("{:?}{}", r.stats.log, r.violations.len()).as_bytes())).collect::<Vec<_>>());
     let mut violations = Vec::new();
     let mut anomalies: BTreeMap<String, u64> = BTreeMap::new();
     let mut ops_total = 0u64;
